@@ -910,6 +910,17 @@ def exec_read(sess: Session, op: dict, step: int) -> Effect:
 # ==========================================================================
 # C: comment attribution (C14, C04)
 
+def _parser_like_blocks(root: Any) -> bool:
+    """Every entry that has indented children also has the dedent mark the parser would have given it."""
+    for _, node in W.iter_nodes(root):
+        if isinstance(node, models.RawTokenModel) or not hasattr(type(node), '_dedent_mark'):
+            continue
+        has_children = any(isinstance(c, I.Repeated) and c.items for name, kind, c in W.children(node) if name in ('_meta', '_postings'))
+        if has_children and node._dedent_mark is None:
+            return False
+    return True
+
+
 def _claimable_layout(obj: Any, comment: Any, side: str) -> bool:
     """The comment sits exactly one newline away from the model's content edge
     (zero-width tokens aside), which is where claim_*_comment looks."""
@@ -989,7 +1000,13 @@ def exec_claim(sess: Session, op: dict, step: int) -> Effect:
             t1 = [id(t) for t in store_tokens(obj)]
             obj.auto_claim_comments()
             if root is not None and W.ownership_map(root) != m1:
-                eff.v('C14', 'auto_idempotent', step, 'second auto_claim_comments() changed the attribution')
+                if not _parser_like_blocks(root):
+                    # an entry that got indented children by editing has no dedent mark: its span ends at the
+                    # last child, so a child's claim moves the point from which the entry looks for its own
+                    # trailing comment; no parsed layout has this shape (the clause is about layouts)
+                    sess.stats['auto_idempotence_skipped_no_dedent_mark'] += 1
+                else:
+                    eff.v('C14', 'auto_idempotent', step, 'second auto_claim_comments() changed the attribution')
         else:
             if not isinstance(obj, I.internal.SurroundingCommentsMixin):
                 raise Unresolvable('no surrounding comments')
